@@ -100,6 +100,13 @@ structure SColl where
   children : List SChild
   deriving Repr, DecidableEq, Inhabited
 
+/-- a collection as `collection_to_gff3` sees it: the annotation data plus `str(collection.sequence)`
+    (`none` when the collection has no sequence) -/
+structure GColl where
+  coll : SColl
+  seq : Option Str
+  deriving Repr, DecidableEq, Inhabited
+
 /-! ## Part 2 — strings, percent decoding, line syntax -/
 
 /-- code-point lexicographic order (Python `str.__lt__`) -/
@@ -433,15 +440,20 @@ def expectAttrs (quals : List (Str × List Str)) : List (Str × List Str) :=
 
 def geneQuals (g : SGene) : Quals :=
   g.quals ++ optVal kGeneId g.gid ++ optVal kGeneName g.sym
-    ++ [(kGeneBiotype, [match g.gtype with | some t => t | none => unspecified])] ++ optVal kLocusTag g.locus
+    ++ optVal kGeneBiotype (some (match g.gtype with | some t => t | none => unspecified)) ++ optVal kLocusTag g.locus
 
 def txQuals (g : SGene) (t : STx) : Quals :=
   t.quals ++ geneQuals g ++ optVal kTxId t.tid ++ optVal kTxName t.sym
-    ++ [(kTxBiotype, [match t.ttype with | some x => x | none => unspecified])] ++ optVal kProteinId t.pid
+    ++ optVal kTxBiotype (some (match t.ttype with | some x => x | none => unspecified)) ++ optVal kProteinId t.pid
 
 def cdsQuals (g : SGene) (t : STx) : Quals := txQuals g t ++ optVal kProteinId t.pid ++ optVal kProduct t.product
 
-def natStr (n : Nat) : Str := (Nat.toDigits 10 n)
+/-- decimal digits, most significant first -/
+def decDigits : Nat → Nat → List Char
+  | 0, _ => []
+  | fuel + 1, n => if n < 10 then [Char.ofNat (48 + n)] else decDigits fuel (n / 10) ++ [Char.ofNat (48 + n % 10)]
+
+def natStr (n : Nat) : Str := decDigits (n + 1) n
 
 def minStart : List Blk → Option Nat
   | [] => none
@@ -568,5 +580,64 @@ def checkLines (c : SColl) (off : Nat) (lines : List Str) : List String :=
     (if parentsEarlier rows [] then [] else ["parent-earlier"]) ++
     (if sortedByStart rows then [] else ["ordered-by-start"]) ++
     (if gffDecode off rows = expected c then [] else ["decode(rows)=source"])
+
+/-! ## Part 5 — the whole file: header, `##sequence-region` pragmas, feature lines, `##FASTA` section
+
+  GFF3: the first line is `##gff-version 3`; `##sequence-region seqid start end` declares a landmark; after
+  `##FASTA` the rest of the file is FASTA whose record names are the seqids of column 1. -/
+
+def sHeader : Str := ['#', '#', 'g', 'f', 'f', '-', 'v', 'e', 'r', 's', 'i', 'o', 'n', ' ', '3']
+def sFasta : Str := ['#', '#', 'F', 'A', 'S', 'T', 'A']
+def sRegion : Str := ['#', '#', 's', 'e', 'q', 'u', 'e', 'n', 'c', 'e', '-', 'r', 'e', 'g', 'i', 'o', 'n']
+
+def isPragma (l : Str) : Bool := match l with | '#' :: _ => true | _ => false
+
+def gName (g : GColl) : Str := match g.coll.seqName with | some s => s | none => []
+
+/-- FASTA lines → records (name, concatenated sequence), read left to right; `none` when text precedes the first
+    `>` or a sequence line is empty -/
+def readFasta (lines : List Str) : Option (List (Str × Str)) :=
+  let step := fun (acc : Option (List (Str × Str))) (l : Str) =>
+    match acc with
+    | none => none
+    | some recs =>
+      match l with
+      | '>' :: name => some (recs ++ [(name, [])])
+      | [] => none
+      | _ => match recs.reverse with
+        | [] => none
+        | (n, s) :: before => some (before.reverse ++ [(n, s ++ l)])
+  lines.foldl step (some [])
+
+/-- The violated clauses for the printed lines of `collection_to_gff3` on `cs` (sequence names pairwise distinct).
+    `off g` = chunk offset used for `g`'s rows. -/
+def checkFile (cs : List GColl) (addSeq ordered chromRel : Bool) (lines : List Str) : List String :=
+  let order := if ordered then sortBy (fun a b : GColl => strLe (gName a) (gName b)) cs else cs
+  match lines with
+  | [] => ["header"]
+  | h :: rest =>
+    let pragmas := rest.takeWhile (fun l => isPragma l && l != sFasta)
+    let afterP := rest.dropWhile (fun l => isPragma l && l != sFasta)
+    let feats := afterP.takeWhile (fun l => l != sFasta)
+    let tail := afterP.dropWhile (fun l => l != sFasta)
+    (if h = sHeader then [] else ["header"]) ++
+    (if pragmas = (if addSeq then order.map fun g =>
+        sRegion ++ [' '] ++ gName g ++ [' ', '1', ' '] ++ natStr (match g.seq with | some s => s.length | none => 0)
+       else []) then [] else ["sequence-region-pragmas"]) ++
+    (match addSeq, tail with
+     | false, [] => []
+     | false, _ => ["unexpected-fasta-section"]
+     | true, [] => ["fasta-section-missing"]
+     | true, _ :: fa =>
+       if readFasta fa = some (order.map fun g => (gName g, match g.seq with | some s => s | none => [])) then []
+       else ["fasta-records"]) ++
+    (if feats.any isPragma then ["pragma-among-features"] else []) ++
+    -- feature lines: one contiguous block per collection, in collection order, each block a clean export
+    (let seqidOf := fun (l : Str) => match splitOnChar '\t' l with | c :: _ => c | [] => []
+     let blocks := order.map fun g => feats.filter fun l => seqidOf l = gName g
+     (if blocks.flatten = feats then [] else ["blocks-by-sequence-name"]) ++
+     (order.zip blocks).flatMap fun gb =>
+       let off := match chromRel, gb.1.coll.par with | false, .chunk cs _ => cs | _, _ => 0
+       checkLines gb.1.coll off gb.2)
 
 end BioCantor.Spec.Gff
